@@ -244,16 +244,28 @@ pub fn run_verify(o: &Opts) -> Report {
             2 => {
                 // block: valid parent QC (or genesis), optional TC, then tamper with signed fields
                 let qc = if rng.gen_bool(0.2) { QC::genesis() } else { u.mk_qc(parent.digest(), round, &signers) };
-                let tc = if rng.gen_bool(0.3) {
+                // the block either extends its QC directly (round = qc.round + 1: rule 2 does not need the
+                // TC) or skips a round; a TC may be attached in both shapes and must be checked in both
+                let bround = qc.round + if rng.gen_bool(0.45) { 1 } else { 2 };
+                let tc = if rng.gen_bool(0.55) {
                     let entries: Vec<(u64, u64)> = quorum_signers(&u, &mut rng).iter().map(|s| (*s, 0)).collect();
-                    Some(u.mk_tc(round + 1, &entries))
+                    Some(u.mk_tc(if rng.gen_bool(0.8) { bround - 1 } else { bround + rng.gen_range(0, 5) }, &entries))
                 } else {
                     None
                 };
                 let author = rng.gen_range(1, u.n() as u64 + 1);
-                let mut b = u.mk_block(author, round + 2, qc, tc, vec![]);
-                let label = match rng.gen_range(0, 9) {
+                let mut b = u.mk_block(author, bround, qc, tc, vec![]);
+                let label = match rng.gen_range(0, 12) {
                     0 | 1 => "none",
+                    9 | 10 | 11 if b.tc.is_some() => {
+                        // only the attached TC is at fault (it is not covered by the block digest, so
+                        // anyone can splice it onto an honest block)
+                        let mut t = b.tc.take().unwrap();
+                        let l = mutate_tc(&mut u, &mut rng, &mut t);
+                        b.tc = Some(t);
+                        if b.round == b.qc.round + 1 { "direct+tc-mutated" } else { l }
+                    }
+                    9 | 10 | 11 => "none",
                     2 => {
                         b.round += 1;
                         "round-changed"
